@@ -16,6 +16,7 @@ package main
 // Nothing here computes an expected value: inputs/outputs are only encoded/decoded.
 
 import (
+	"reflect"
 	"bufio"
 	"encoding/binary"
 	"encoding/json"
@@ -343,6 +344,31 @@ func (h *realHeap) sharing() string {
 			if rs[i].lo < rs[j].hi && rs[j].lo < rs[i].hi {
 				return rs[i].what + " and " + rs[j].what + " share memory"
 			}
+		}
+	}
+	// annotation maps, and the map / slice values they hold (merged_*, pairing_mismatches ...), are mutable
+	// state as well: two live objects must not hold the same one
+	owner := map[uintptr]string{}
+	for i := 1; i < len(h.objs); i++ {
+		o := h.objs[i]
+		if o == nil || !o.HasAnnotation() {
+			continue
+		}
+		ann := o.Annotations()
+		ptrs := map[uintptr]string{reflect.ValueOf(ann).Pointer(): "the annotation map"}
+		for k, v := range ann {
+			rv := reflect.ValueOf(v)
+			if (rv.Kind() == reflect.Map || rv.Kind() == reflect.Slice) && rv.Len() > 0 {
+				ptrs[rv.Pointer()] = "annotation " + k
+			}
+		}
+		for ptr, what := range ptrs {
+			if prev, ok := owner[ptr]; ok {
+				return fmt.Sprintf("%s of %d is the very same object as %s", what, i, prev)
+			}
+		}
+		for ptr, what := range ptrs {
+			owner[ptr] = fmt.Sprintf("%s of %d", what, i)
 		}
 	}
 	return ""
